@@ -246,7 +246,8 @@ func (p *exprParser) unary() Expr {
 	t := p.peek()
 	if t.kind == "op" {
 		switch t.s {
-		case "!", "-", "^":
+		case "!", "-", "^", "&":
+			// (prefix & is address-of: &x.f, &s[i])
 			p.next()
 			return &EUnary{t.s, p.unary()}
 		case "*":
